@@ -452,6 +452,21 @@ Theorem C13_src_scipy_call_pure :
 Proof. intros; eapply src_scipy_call_pure; eauto. Qed.
 Print Assumptions C13_src_scipy_call_pure.
 
+(** simulate (algo/simulate/base.py, simulate.py) as written today: the footprint regenerated from the source contains reads
+    of the model's state, draws and seeds only ([readonly_atom], decided by computation inside the proof); every script within
+    it — whatever the numbers of patients, visits, features, draws; `estimate` on clones — assigns nothing on, and never
+    replaces, the model's own state: `model.state` is the same object and every variable reads as before. *)
+Theorem C13_src_simulate_pure :
+  forall (V : Type) sread swrite sclone tracked tape seed_pos anc indep simOn,
+    state_interface V sread swrite sclone anc indep simOn ->
+    forall (I : inst V) (script : list (ev V)),
+      within V I gen_simulate_foot script = true ->
+      forallb (writes_in V (fun _ => false)) script = true
+      /\ forall s p c', simOn top s s -> api_call V sread swrite sclone tracked tape seed_pos script s p = Some c' ->
+           exists s', model_state V c' = Some s' /\ cCur c' = 0 /\ simOn top s' s /\ forall n, snd (sread s' n) = snd (sread s n).
+Proof. intros; eapply src_simulate_pure; eauto. Qed.
+Print Assumptions C13_src_simulate_pure.
+
 (** The caller's settings with the kind of copy READ FROM `BaseAlgorithm.__init__` today (`gen_settings_copy`; the translator
     also checks that no module of leaspy.algo re-binds `algo_parameters` to, or writes through, `settings.parameters`). *)
 Theorem C13_src_settings_copied :
